@@ -195,7 +195,7 @@ class ListTree:
         pattern_parts: list[str] = []
         for part in self._wildcards.split(query):
             if part == '*':
-                pattern_parts.append('.*?')
+                pattern_parts.append('(?s:.*?)')
             elif part == '%':
                 pattern_parts.append(self._no_delimiter)
             else:
